@@ -185,13 +185,17 @@ def jwe_consume(ctx, n_sets):
                     continue
                 hk = {"right": {"kid": keys[i].kid}, "absent": {}, "unknown": {"kid": "no-such-kid"},
                       "other-key": {"kid": keys[(i + 1) % n].kid}, "nonstring": {"kid": 7}}[kid_mode]
-                for ser in ("compact", "flat", "general"):
+                for ser, pos in (("compact", "protected"), ("flat", "protected"), ("general", "protected"), ("flat", "unprotected"),
+                                 ("general", "unprotected"), ("flat", "recipient"), ("general", "recipient")):
+                    if pos != "protected" and not hk:
+                        continue
                     try:
-                        c = E.build(rng, alg, enc, ser, b"for the right key", kn=kn, header_extra=hk or None)
+                        c = E.build(rng, alg, enc, ser, b"for the right key", kn=kn, header_extra=(hk or None) if pos == "protected" else None,
+                                    unprotected=hk if pos == "unprotected" else None, recipient_header=hk if pos == "recipient" else None)
                     except Exception:  # noqa: BLE001 - reference cannot build (e.g. kid type): skip
                         continue
                     for via in ("direct", "callable"):
-                        c2 = E.DCase(c.value, ks if via == "direct" else ("callable", ks), None, E.JReg(), f"kid-{kid_mode}-{via}", c.meta)
+                        c2 = E.DCase(c.value, ks if via == "direct" else ("callable", ks), None, E.JReg(), f"kid-{kid_mode}-{pos}-{via}", c.meta)
 
                         def expect(case, impl, kid_mode=kid_mode, n=n):
                             if kid_mode == "right" or (kid_mode == "absent" and n == 1):
@@ -411,6 +415,49 @@ def produce(ctx, tape, n_sets):
                     ctx.report("JWE header kid changed", {"header": seen}, "jwe-keyset:kid-changed")
                 if not seen.get("kid"):
                     ctx.report("JWE produced from a key set carries no kid", {"header": seen}, "jwe-keyset:no-kid")
+                # the JSON serializations, the kid named in each of the three header positions
+                for ser in ("flat", "general"):
+                    for pos in ("protected", "unprotected", "recipient"):
+                        if mode != "kid" and pos != "protected":
+                            continue
+                        base = {"enc": "A128GCM"}
+                        kidh = {"kid": f"e{i}"} if mode == "kid" else {}
+                        prot = dict(base, alg=alg, **(kidh if pos == "protected" else {}))
+                        cls_ = jwe.FlattenedJSONEncryption if ser == "flat" else jwe.GeneralJSONEncryption
+                        obj = cls_(prot, b"plaintext", dict(kidh) if pos == "unprotected" and kidh else None)
+                        obj.add_recipient(dict(kidh) if pos == "recipient" and kidh else None)
+                        tape.picks = [pick]
+                        try:
+                            jtok = jwe.encrypt_json(obj, eks, algorithms=jwe_all)
+                            outj = "ok"
+                        except Exception as e:  # noqa: BLE001
+                            outj, jtok = err_name(e), None
+                        ctx.count("keyset-jwe-json", (repr(encset_names), i, mode, ser, pos), True, outj)
+                        if outj != "ok":
+                            ctx.report(f"JWE {ser} JSON with a key set (kid in {pos}, {mode}) failed: {outj}", {"names": encset_names, "alg": alg},
+                                       f"jwe-keyset-json:{mode}:{pos}")
+                            continue
+                        rh = (jtok.get("header") if ser == "flat" else jtok["recipients"][0].get("header")) or {}
+                        merged = dict(rh)
+                        merged.update(jtok.get("unprotected") or {})
+                        merged.update(json.loads(base64.urlsafe_b64decode(jtok["protected"] + "==")))
+                        kids_seen = [h.get("kid") for h in (json.loads(base64.urlsafe_b64decode(jtok["protected"] + "==")), jtok.get("unprotected") or {}, rh) if "kid" in h]
+                        if mode == "kid":
+                            if set(kids_seen) != {f"e{i}"}:
+                                ctx.report(f"encrypt_json with kid e{i} named in the {pos} header produced a token naming {kids_seen}", {"token": jtok},
+                                           f"jwe-keyset-json:kid-changed:{pos}")
+                            # ... and it must have been encrypted to exactly that key
+                            only = KeySet([K.key(encset_names[i][0], private=True, kid=f"e{i}")])
+                            try:
+                                pt2 = jwe.decrypt_json(copy.deepcopy(jtok), only, algorithms=jwe_all).plaintext
+                                ok2 = pt2 == b"plaintext"
+                            except Exception as e:  # noqa: BLE001
+                                ok2 = False
+                            if not ok2:
+                                ctx.report(f"encrypt_json with kid e{i} in the {pos} header did not encrypt to that key", {"token": jtok, "names": encset_names},
+                                           f"jwe-keyset-json:wrong-key:{pos}")
+                        elif not merged.get("kid"):
+                            ctx.report("JWE JSON produced from a key set carries no kid", {"token": jtok}, "jwe-keyset-json:no-kid")
                 for wrong in ("unknown",):
                     bad = dict(hdr, kid="nope")
                     try:
